@@ -99,17 +99,18 @@ Fixpoint int_digits (base acc : N) (ds : str) : option N :=
 
 (* int(s, base) for s made of [A-Za-z0-9]: optional '0x'/'0o'/'0b' prefix matching the base,
    then at least one digit; None = ValueError *)
+Definition strip_base_prefix (base : N) (s : str) : str :=
+  match s with
+  | z :: l :: r =>
+      if (z =? 48) && (((base =? 16) && (ascii_lower l =? 120)) || ((base =? 8) && (ascii_lower l =? 111))
+                       || ((base =? 2) && (ascii_lower l =? 98))) then r else s
+  | _ => s
+  end.
+
 Definition py_int (base : N) (s : str) : option N :=
-  let body :=
-    match s with
-    | 48 :: l :: r =>
-        if ((base =? 16) && (ascii_lower l =? 120)) || ((base =? 8) && (ascii_lower l =? 111))
-           || ((base =? 2) && (ascii_lower l =? 98)) then r else s
-    | _ => s
-    end in
-  match body with
+  match strip_base_prefix base s with
   | [] => None
-  | _ => int_digits base 0 body
+  | body => int_digits base 0 body
   end.
 
 Fixpoint span (p : N -> bool) (s : str) : str * str :=
